@@ -17,6 +17,8 @@ def gen_cases(tier, seed, n_grammars, profiles=("general",), reprs=workload.REPR
     for gi, desc in enumerate(descs):
         for rk, dk in workload.config_grid(rng, reprs):
             d = dict(desc)
+            if rng.random() < 0.25:
+                d = grammars.reordered(d, rng, move_start=str(desc.get("name", "")).startswith(("general", "fx_layers", "fx_nested")))
             if expansion_share and rng.random() < expansion_share:
                 d["expansion"] = True
             yield {
